@@ -23,7 +23,7 @@ META = {
         'with a mask filter_thru sums the interpolated flux only, interpolation runs along the axis that is summed (derived from the '
         'djs_maskinterp dispatch), and every band is divided by its own zero-guarded response sum. NOT decided: inverse to 1e-6 A, '
         'vacuum > air, linearity and mean-value bounds of filter_thru (numerical).'),
-    'floors': {'C19.FACT': 3, 'C19.THRESH': 6, 'C19.NOMUT': 3, 'C19.UNITS': 5, 'C19.AB': 4, 'C19.FILTER': 4},
+    'floors': {'C19.FACT': 3, 'C19.THRESH': 6, 'C19.NOMUT': 3, 'C19.UNITS': 5, 'C19.AB': 4, 'C19.FILTER': 5},
 }
 
 ASTRO = 'pydl/goddard/astro.py'
@@ -274,6 +274,16 @@ def check_filter(ctx, repo):
                             bad.append(d)
     ctx.check('C19.FILTER', n >= 1 and not bad, f, bad[0] if bad else f.node, 'with a mask, the summed quantity is the interpolated flux, never the raw flux',
               msg='filter_thru sums the raw flux on a path where a mask was given: %s' % (src(bad[0])[:70] if bad else ''), construct='summed quantity')
+    fi = [st for st in walk_local(f.node) if isinstance(st, ast.Assign) and src(st.targets[0]) == 'filtimg']
+    okabs = False
+    if fi:
+        w = [x for x in ast.walk(fi[0].value) if isinstance(x, ast.Name) and x.id == 'logdiff']
+        if w:
+            ds = [v for d, v in fa.defs(w[0]) if v is not None]
+            okabs = bool(ds) and all(isinstance(v, ast.Call) and call_name(v) in ('absolute', 'abs', 'fabs') for v in ds)
+    ctx.check('C19.FILTER', okabs, f, fi[0] if fi else f.node, 'the pixel weights d(log lambda) are made positive (np.absolute) before they multiply the response',
+              msg='the d(log lambda) weights reach the band sum without np.absolute: for a wavelength solution that decreases with pixel index the weights are '
+                  'negative and the zero-guard of the normalisation turns the weighted mean into nonsense', construct='logdiff sign')
     norm = [st for st in walk_local(f.node) if isinstance(st, ast.Assign) and isinstance(st.targets[0], ast.Subscript) and src(st.targets[0].value) == 'res' and '/' in src(st.value)]
     ok = len(norm) == 1 and 'sumfilt + (sumfilt <= 0)' in src(norm[0].value)
     sf = [st for st in walk_local(f.node) if isinstance(st, ast.Assign) and src(st.targets[0]) == 'sumfilt']
